@@ -42,7 +42,7 @@ theorem stepT_W {s s' : State} {t : Tid} (h : InvW s) (hs : stepT s t = some s')
         | (intro hp; cases hp; done)
         | (have := (h2 ht).2.1; rw [hpc] at this; exact absurd rfl this))
 
-theorem init_W (threaded : Bool) (users : List (List Bool)) (progs : List (List Op)) :
+theorem init_W (threaded : Bool) (users : List (List UItem)) (progs : List (List Op)) :
     InvW (Handoff.init threaded users progs) := by
   refine ⟨?_, ?_⟩
   · intro _ p hp; cases hp
@@ -170,7 +170,7 @@ theorem stepT_N {s s' : State} {t : Tid} (h : InvN s) (hs : stepT s t = some s')
             | exact Or.inr (Or.inl h)
             | (simp [draining, hpc] at h; done)))
 
-theorem init_N (threaded : Bool) (users : List (List Bool)) (progs : List (List Op)) :
+theorem init_N (threaded : Bool) (users : List (List UItem)) (progs : List (List Op)) :
     InvN (Handoff.init threaded users progs) :=
   ⟨fun hp => (by cases hp), fun hp => (by cases hp), fun hc => absurd rfl hc⟩
 
@@ -390,7 +390,7 @@ theorem stepT_U {s s' : State} {t : Tid} (h : InvU s) (hs : stepT s t = some s')
         | (intro a b c hp; cases hp; done)
         | (intro u hu hh; simp only [holds] at hh; done))
 
-theorem init_U (threaded : Bool) (users : List (List Bool)) (progs : List (List Op)) :
+theorem init_U (threaded : Bool) (users : List (List UItem)) (progs : List (List Op)) :
     InvU (Handoff.init threaded users progs) := by
   refine ⟨by simp [Handoff.init], ?_, ?_, ?_, ?_, ?_, ?_, ?_, ?_⟩
   · intro i f ctx st p hf hp; obtain ⟨q, rfl⟩ := init_fs hf; cases hp
